@@ -261,6 +261,14 @@ void do_op(string op, string ctx) {
     o = ob_of(f[1]);
     if (o) { if (sizeof(f) > 3) call_other(o, f[2], ob_of(f[3])); else call_other(o, f[2]); }
     break;
+  case "shape":    // shape:a,b,c   run a region nesting in the ec object
+    o = ob_of("ec");
+    if (o) o->run_shape(f[1]);
+    break;
+  case "probe":
+    o = ob_of("ec");
+    if (o) o->probe();
+    break;
   case "clr":
     map_delete(scripts, f[1]);
     break;
